@@ -544,10 +544,936 @@ def translate(sc):
     return info, "\n".join(L) + "\n"
 
 
-if __name__ == "__main__" and len(sys.argv) > 1 and sys.argv[1] == "--translate-only":
+# ----------------------------------------------------------------------------------------------------------------
+# stage 3 helpers: generated C header, lifted Go functions, parsing of Coq output
+# ----------------------------------------------------------------------------------------------------------------
+
+def lift_mac_expr(tproxy_src):
+    s = strip_c_comments(tproxy_src)
+    m = re.search(r"__be32 mac_be\[4\] = \{(.*?)\};", s, re.S)
+    if not m:
+        raise Anchor("anchor moved: mac_be initialiser of do_tproxy_lan_ingress")
+    init = m.group(1)
+    if "pkt->ethh.h_source" not in init:
+        raise Anchor("anchor moved: mac_be initialiser no longer reads pkt->ethh.h_source")
+    canon = re.sub(r"\s+", "", init.replace("pkt->ethh.h_source", "H"))
+    # the other sites (wan egress) assign the same two words
+    others = []
+    for mm in re.finditer(r"scratch->mac_be\[2\] = (bpf_htonl\(.*?\));\s*scratch->mac_be\[3\] = (bpf_htonl\(.*?\));", s, re.S):
+        others.append(re.sub(r"\s+", "", ("0,0,%s,%s," % (mm.group(1), mm.group(2))).replace("ethh->h_source", "H")))
+    same = all(o == canon for o in others)
+    return init.replace("pkt->ethh.h_source", "h"), len(others), same
+
+
+def gen_c_header(info, tproxy_src):
+    L = ["/* generated by tools/c19.py */", "#include <stddef.h>", "static void c19_print_layouts(void)", "{"]
+    for d in info["c_decls"]:
+        T = "%s %s" % (d["kind"], d["name"])
+        L.append('\tprintf("S %s|%%zu|%%zu\\n", sizeof(%s), (size_t)_Alignof(%s));' % (T, T, T))
+        for p in d["paths"]:
+            L.append('\tprintf("F %s|%s|%%zu|%%zu\\n", offsetof(%s, %s), sizeof(((%s *)0)->%s));' % (T, p, T, p, T, p))
+    L.append("}")
+    init, nother, same = lift_mac_expr(tproxy_src)
+    L.append("/* lifted from do_tproxy_lan_ingress: the mac_be initialiser */")
+    L.append("static void c19_mac_be(const unsigned char *h, __be32 out[4])\n{\n\t__be32 mac_be[4] = {%s};\n\tmemcpy(out, mac_be, 16);\n}" % init)
+    return "\n".join(L) + "\n", {"mac_other_sites": nother, "mac_sites_identical": same}
+
+
+def extract_go_func(src, header_re):
+    m = re.search(header_re, src, re.M)
+    if not m:
+        raise Anchor("anchor moved: %s not found in control/bpf_utils.go" % header_re)
+    i = src.index("{", m.end() - 1)
+    j = match_brace(src, i)
+    return src[i:j + 1]
+
+
+def gen_lifted_go():
+    src = read("control/bpf_utils.go")
+    body_lpm = extract_go_func(src, r"^func cidrToBpfLpmKey\(prefix netip\.Prefix\) _bpfLpmKey \{")
+    body_enc = extract_go_func(src, r"^func \(r bpfPortRange\) Encode\(\) \(b \[16\]byte\) \{")
+    return ("//go:build verif\n\npackage control\n\n// GENERATED by tools/c19.py: source text of the real-build functions of control/bpf_utils.go\n\n"
+            "import (\n\t\"encoding/binary\"\n\t\"net/netip\"\n\n\t\"github.com/daeuniverse/dae/common\"\n)\n\n"
+            "var _ = binary.LittleEndian\nvar _ = common.Htons\n\n"
+            "func verifC19RealCidrToBpfLpmKey(prefix netip.Prefix) _bpfLpmKey " + body_lpm + "\n\n"
+            "func verifC19RealPortRangeEncode(r bpfPortRange) (b [16]byte) " + body_enc + "\n")
+
+
+class CoqTerm:
+    """parser for the subset of printed Coq terms used here: numbers, "strings", true/false, (tuples), [lists;..],
+    constructor applications are not needed."""
+
+    def __init__(self, s):
+        self.s = s
+        self.i = 0
+
+    def ws(self):
+        while self.i < len(self.s) and self.s[self.i].isspace():
+            self.i += 1
+
+    def parse(self):
+        self.ws()
+        c = self.s[self.i]
+        if c == '"':
+            j = self.s.index('"', self.i + 1)
+            v = self.s[self.i + 1:j]
+            self.i = j + 1
+            return v
+        if c == "(":
+            self.i += 1
+            items = [self.parse()]
+            self.ws()
+            while self.s[self.i] == ",":
+                self.i += 1
+                items.append(self.parse())
+                self.ws()
+            assert self.s[self.i] == ")", self.s[self.i:self.i + 30]
+            self.i += 1
+            return tuple(items)
+        if c == "[":
+            self.i += 1
+            self.ws()
+            items = []
+            if self.s[self.i] == "]":
+                self.i += 1
+                return items
+            items.append(self.parse())
+            self.ws()
+            while self.s[self.i] == ";":
+                self.i += 1
+                items.append(self.parse())
+                self.ws()
+            assert self.s[self.i] == "]", self.s[self.i:self.i + 30]
+            self.i += 1
+            return items
+        m = re.match(r"[A-Za-z_0-9']+", self.s[self.i:])
+        tok = m.group(0)
+        self.i += len(tok)
+        if tok.isdigit():
+            return int(tok)
+        return {"true": True, "false": False}.get(tok, tok)
+
+
+def coq_values(output, names):
+    """`Definition X := Eval vm_compute in ... . Print X.` prints `X = term : type`"""
+    res = {}
+    for n in names:
+        m = re.search(r"^%s =\s" % re.escape(n), output, re.M)
+        if not m:
+            return None
+        t = CoqTerm(output[m.end():])
+        res[n] = t.parse()
+    return res
+
+
+def flatten_tuple(t):
+    """Coq prints (a, b, c, d) for nested pairs: already flat in concrete syntax"""
+    return t
+
+
+# ----------------------------------------------------------------------------------------------------------------
+# case generation (entities), one seeded PRNG
+# ----------------------------------------------------------------------------------------------------------------
+V4_EDGE = [0, 0xffffffff, 0x01020304, 0x7f000001, 0x0a000001, 0xc0a80101, 0xe0000001, 0x00000001, 0xff000000, 0x000000ff, 0x80000000]
+V6_EDGE = [0, 1, (1 << 128) - 1, 0x20010db8 << 96 | 1, 0xfe80 << 112 | 1, 0xffff << 32 | 0x01020304, 0xffff << 32, 0xffff << 32 | 0xffffffff,
+           0xfffe << 32 | 0x01020304, 1 << 127, 0x0064ff9b << 96 | 0x01020304, 0xff02 << 112 | 0xfb]
+PORT_EDGE = [0, 1, 53, 80, 255, 256, 443, 5353, 0xff00, 0x00ff, 65535, 0x3500]
+PROTO_EDGE = [6, 17, 6, 17, 6, 17, 1, 58, 0, 255]
+
+
+def gen_addr(rng, fam=None):
+    fam = fam or rng.choice("446")
+    if fam == "4":
+        return ("4", rng.choice(V4_EDGE) if rng.random() < 0.4 else rng.getrandbits(32))
+    return ("6", rng.choice(V6_EDGE) if rng.random() < 0.45 else rng.getrandbits(128))
+
+
+def gen_flow(rng, fam=None):
+    s = gen_addr(rng, fam)
+    d = gen_addr(rng, s[0])
+    port = lambda: rng.choice(PORT_EDGE) if rng.random() < 0.5 else rng.getrandbits(16)
+    return {"src": s, "dst": d, "sport": port(), "dport": port(), "proto": rng.choice(PROTO_EDGE),
+            "gs": rng.choice("46") if s[0] == "4" else "6", "gd": rng.choice("46") if d[0] == "4" else "6",
+            "mac": "%012x" % (rng.choice([0, (1 << 48) - 1, 0x010203040506]) if rng.random() < 0.3 else rng.getrandbits(48))}
+
+
+def gen_case(rng, kind=None):
+    kind = kind or rng.choice(["tuple"] * 5 + ["conn"] * 3 + ["lpm"] * 4 + ["dom"] * 2 + ["ms"] * 3 + ["mac"])
+    if kind == "tuple":
+        return {"k": "tuple", "flow": gen_flow(rng)}
+    if kind == "conn":
+        dom = rng.choice([0, 1, 2, 2])
+        ob = rng.choice([0, 1, 2, 127, 128, 251, 252, 253, 254, 255]) if rng.random() < 0.5 else rng.randrange(256)
+        if dom == 0:
+            nt = {"udp": False, "dom": rng.choice([0, 0, 1, 2]), "isdns": rng.random() < 0.3}
+            l4, dport = 6, rng.choice([80, 443, 0, 65535, 5353, 54, 52])
+        elif dom == 1:
+            nt = {"udp": True, "dom": 1, "isdns": rng.random() < 0.8}
+            l4, dport = 17, 53
+        else:
+            nt = {"udp": True, "dom": rng.choice([0, 2]), "isdns": rng.random() < 0.2}
+            l4, dport = 17, rng.choice([80, 443, 0, 65535, 5353, 54, 52, 0x3500])
+        return {"k": "conn", "outbound": ob, "dom": dom, "v6": rng.random() < 0.5, "nt": nt, "l4proto": l4, "dport": dport}
+    if kind == "lpm":
+        pa = gen_addr(rng)
+        width = 32 if pa[0] == "4" else 128
+        bits = rng.choice([0, 1, 7, 8, 9, width - 1, width, width // 2, 24 if width == 32 else 64]) if rng.random() < 0.6 else rng.randint(0, width)
+        grep = rng.choice("46") if pa[0] == "4" else "6"
+        f = gen_flow(rng, pa[0])
+        r = rng.random()
+        mask = ((1 << width) - 1) >> bits
+        if r < 0.45:     # inside: keep the prefix bits, random host bits
+            f["dst"] = (pa[0], (pa[1] & ~mask & ((1 << width) - 1)) | (rng.getrandbits(width) & mask))
+        elif r < 0.8 and bits > 0:   # just outside: flip one prefix bit (biased to the last one)
+            b = bits - 1 if rng.random() < 0.6 else rng.randrange(bits)
+            f["dst"] = (pa[0], ((pa[1] & ~mask & ((1 << width) - 1)) | (rng.getrandbits(width) & mask)) ^ (1 << (width - 1 - b)))
+        f["gd"] = rng.choice("46") if f["dst"][0] == "4" else "6"
+        return {"k": "lpm", "paddr": pa, "pbits": bits, "grep": grep, "flow": f}
+    if kind == "dom":
+        f = gen_flow(rng)
+        while f["dst"][1] == 0:
+            f = gen_flow(rng)
+        return {"k": "dom", "flow": f, "grep": f["gd"]}
+    if kind == "mac":
+        f = gen_flow(rng)
+        return {"k": "mac", "flow": f}
+    mk = rng.choice(["port", "sport", "l4proto", "ipversion", "dscp", "pname", "ip", "sip", "mac", "domain", "fallback"])
+    c = {"k": "ms", "kind": mk, "a": 0, "b": 0, "pname": "", "not": rng.random() < 0.3, "must": rng.random() < 0.3,
+         "mark": rng.choice([0, 1, 0xffffffff, 0x08000000, 0x01020304]) if rng.random() < 0.6 else rng.getrandbits(32),
+         "outbound": rng.choice([0, 1, 2, 100, 251])}
+    if mk in ("port", "sport"):
+        lo = rng.choice(PORT_EDGE) if rng.random() < 0.5 else rng.getrandbits(16)
+        hi = rng.choice(PORT_EDGE) if rng.random() < 0.5 else rng.getrandbits(16)
+        c["a"], c["b"] = min(lo, hi), max(lo, hi)
+    elif mk in ("l4proto", "ipversion"):
+        c["a"] = rng.choice([1, 2, 3])
+    elif mk == "dscp":
+        c["a"] = rng.choice([0, 1, 46, 63, 255, rng.getrandbits(8)])
+    elif mk == "pname":
+        name = rng.choice([b"curl", b"a", b"0123456789abcdef", b"", bytes(rng.getrandbits(8) for _ in range(16))])
+        c["pname"] = (name + b"\0" * 16)[:16].hex()
+    elif mk in ("ip", "sip", "mac"):
+        c["a"] = rng.choice([0, 1, 2, 255, 256, 1031, 65536])
+    return c
+
+
+def ip_str(a, rep):
+    fam, v = a
+    if fam == "4":
+        s = str(ipaddress.IPv4Address(v))
+        return s if rep == "4" else "::ffff:" + s
+    s = str(ipaddress.IPv6Address(v))
+    if (v >> 32) == 0xffff:
+        s = "::ffff:" + str(ipaddress.IPv4Address(v & 0xffffffff))
+    return s
+
+
+def ap_str(a, rep, port):
+    s = ip_str(a, rep)
+    return "%s:%d" % (s, port) if ":" not in s else "[%s]:%d" % (s, port)
+
+
+def go_inputs(c):
+    """Go harness input lines for one case"""
+    k = c["k"]
+    f = c.get("flow")
+    if k == "tuple":
+        return [{"op": "tuple", "src": ap_str(f["src"], f["gs"], f["sport"]), "dst": ap_str(f["dst"], f["gd"], f["dport"]), "proto": f["proto"]}]
+    if k == "conn":
+        return [{"op": "conn", "outbound": c["outbound"], "l4": "udp" if c["nt"]["udp"] else "tcp", "ipv": "6" if c["v6"] else "4",
+                 "isdns": c["nt"]["isdns"], "dom": c["nt"]["dom"]}]
+    if k == "lpm":
+        fam, v = c["paddr"]
+        bits = c["pbits"] + (96 if (fam == "4" and c["grep"] == "6") else 0)
+        return [{"op": "lpm", "prefix": "%s/%d" % (ip_str(c["paddr"], c["grep"]), bits)}]
+    if k == "dom":
+        return [{"op": "domkey", "ip": ip_str(f["dst"], c["grep"])}]
+    if k == "mac":
+        return [{"op": "mackey", "pname": f["mac"]}]
+    return [{"op": "matchset", "kind": c["kind"], "a": c["a"], "b": c["b"], "pname": c["pname"], "not": c["not"], "must": c["must"],
+             "mark": c["mark"], "outbound": c["outbound"]}]
+
+
+def t_line(f):
+    fam = f["src"][0]
+    w = 8 if fam == "4" else 32
+    return "T %s %0*x %0*x %d %d %d %s" % (fam, w, f["src"][1], w, f["dst"][1], f["sport"], f["dport"], f["proto"], f["mac"])
+
+
+def c_inputs(c, go_res):
+    k = c["k"]
+    if k in ("tuple", "dom", "mac"):
+        return [t_line(c["flow"])]
+    if k == "conn":
+        return ["K %d %d %d %s" % (c["outbound"], c["l4proto"], c["dport"], "6" if c["v6"] else "4")]
+    if k == "lpm":
+        hx = go_res[0].get("hex") or "-"
+        f2 = dict(c["flow"])
+        if f2["dport"] == 53:      # a DNS packet is answered "control plane routing" whether or not the rule hit
+            f2["dport"] = 443
+        return [t_line(c["flow"]), "P 0 %s" % hx, t_line(f2), "P 0 -"]
+    return ["V %s" % (go_res[0].get("hex") or "00")]
+
+
+def run_impl(sc, gobin, cbin, cases, tag):
+    """fills c['go'] (list of harness results) and c['c'] (list of answer lines)"""
+    inp, outp = sc.path("c19_%s.in" % tag), sc.path("c19_%s.out" % tag)
+    counts = []
+    with open(inp, "w") as fh:
+        for c in cases:
+            ins = go_inputs(c)
+            counts.append(len(ins))
+            for x in ins:
+                fh.write(json.dumps(x) + "\n")
+    rc, so, se, dt = vlib.run_go_harness(gobin, "TestVerifC19", inp, outp)
+    if rc != 0:
+        return "Go harness failed rc=%d: %s %s" % (rc, so[-1500:], se[-1500:])
+    res = [json.loads(l) for l in open(outp)]
+    if len(res) != sum(counts):
+        return "Go harness answered %d lines for %d inputs" % (len(res), sum(counts))
+    i = 0
+    lines, ccounts = [], []
+    for c, n in zip(cases, counts):
+        c["go"] = res[i:i + n]
+        i += n
+        ci = c_inputs(c, c["go"])
+        ccounts.append(len(ci))
+        lines += ci
+    rc, so, se, dt = vlib.run([cbin], cwd=os.path.dirname(cbin), input="\n".join(lines) + "\n", timeout=300)
+    if rc != 0:
+        return "C driver failed rc=%d: %s" % (rc, (so[-500:] + se[-1500:]))
+    outl = so.split("\n")
+    if outl and outl[-1] == "":
+        outl.pop()
+    if len(outl) != len(lines):
+        return "C driver answered %d lines for %d commands" % (len(outl), len(lines))
+    i = 0
+    for c, n in zip(cases, ccounts):
+        c["c"] = outl[i:i + n]
+        i += n
+    return None
+
+
+# ----------------------------------------------------------------------------------------------------------------
+# cases -> Coq
+# ----------------------------------------------------------------------------------------------------------------
+
+def hexbytes(h):
+    """byte list as one hex literal expanded in Coq (parsing one number is much cheaper than a list of literals)"""
+    n = len(h) // 2
+    return "(be_bytes %d%%nat 0x%s)" % (n, h) if n else "[]"
+
+
+def c_ip(a, pool):
+    return "(%s %s)" % ("IP4" if a[0] == "4" else "IP6", pool.n(a[1]))
+
+
+def c_go(a, rep, pool):
+    if a[0] == "4":
+        return "(G4 %s)" % pool.n(a[1]) if rep == "4" else "(G6 %s)" % pool.n((0xffff << 32) | a[1])
+    return "(G6 %s)" % pool.n(a[1])
+
+
+def c_flow(f, pool):
+    return "(mkflow %s %s %d %d %d)" % (c_ip(f["src"], pool), c_ip(f["dst"], pool), f["sport"], f["dport"], f["proto"])
+
+
+def parse_t(line):
+    """T <hex> [ip=..] [sip=..] [mac=..] [dom=..] route=N"""
+    parts = line.split()
+    if not parts or parts[0] != "T":
+        return None
+    d = {"tuple": parts[1]}
+    for p in parts[2:]:
+        k, v = p.split("=", 1)
+        d[k] = v
+    return d
+
+
+MS_TYPE = {"port": "Port", "sport": "SourcePort", "l4proto": "L4Proto", "ipversion": "IpVersion", "dscp": "Dscp", "pname": "ProcessName",
+           "ip": "IpSet", "sip": "SourceIpSet", "mac": "Mac", "domain": "DomainSet", "fallback": "Fallback"}
+
+
+def case_to_coq(c, pool, info):
+    """returns (coq term or None, pre_errors list of (code, text))"""
+    k = c["k"]
+    g = c["go"]
+    pre = []
+    for r in g:
+        if r.get("err"):
+            return None, [(4, "Go side failed: " + r["err"])]
+    for l in c["c"]:
+        if l.startswith("ERR"):
+            return None, [(5, "C side failed: " + l)]
+    f = c.get("flow")
+    if k == "tuple":
+        t = parse_t(c["c"][0])
+        return "(KTuple %s %s %s %s %s)" % (c_flow(f, pool), c_go(f["src"], f["gs"], pool), c_go(f["dst"], f["gd"], pool),
+                                            hexbytes(g[0]["hex"]), hexbytes(t["tuple"])), pre
+    if k == "conn":
+        m = re.match(r"K (\S+) alive=(\d) lookups=(\d+)", c["c"][0])
+        ck = "None" if m.group(1) == "none" else "(Some %s)" % m.group(1)
+        dom = ["DomTCP", "DomDnsUDP", "DomDataUDP"][c["dom"]]
+        nt = "(mknt %s %s %s)" % (vlib.cbool(c["nt"]["udp"]), vlib.cbool(c["v6"]), ["UdUnset", "UdDns", "UdData"][c["nt"]["dom"]])
+        return "(KConn %d %s %s %s %d %s %d %s)" % (c["outbound"], dom, vlib.cbool(c["v6"]), nt, c["l4proto"], vlib.cbool(c["dport"] == 53),
+                                                    g[0]["key"], ck), pre
+    if k == "lpm":
+        t = parse_t(c["c"][0])
+        if "ip" not in t or "sip" not in t:
+            return None, [(5, "route() issued no LPM lookups: " + c["c"][0])]
+        hit = (int(parse_t(c["c"][2])["route"]) & 0xff) == 1
+        pa = c["paddr"]
+        gbits = c["pbits"] + (96 if (pa[0] == "4" and c["grep"] == "6") else 0)
+        return "(KLpm (mkprefix %s %d) %s %d %s %s %s %s %s)" % (c_ip(pa, pool), c["pbits"], c_go(pa, c["grep"], pool), gbits, hexbytes(g[0]["hex"]),
+                                                              c_flow(f, pool), hexbytes(t["ip"]), hexbytes(t["sip"]), vlib.cbool(hit)), pre
+    if k == "dom":
+        t = parse_t(c["c"][0])
+        if len(g[0].get("keys") or []) != 1:
+            return None, [(4, "Go produced %d domain keys for one address" % len(g[0].get("keys") or []))]
+        if "dom" not in t:
+            return None, [(5, "route() issued no domain_routing_map lookup: " + c["c"][0])]
+        return "(KDom %s %s %s %s)" % (c_flow(f, pool), c_go(f["dst"], c["grep"], pool), hexbytes(g[0]["keys"][0]), hexbytes(t["dom"])), pre
+    if k == "mac":
+        t = parse_t(c["c"][0])
+        if len(g[0].get("keys") or []) != 1:
+            return None, [(4, "Go produced %d keys for one MAC" % len(g[0].get("keys") or []))]
+        if "mac" not in t:
+            return None, [(5, "route() issued no MAC lookup: " + c["c"][0])]
+        return "(KMac %s %s %s)" % (hexbytes(f["mac"]), hexbytes(g[0]["keys"][0]), hexbytes(t["mac"])), pre
+    # match set
+    m = re.match(r"V index=(\d+) port_start=(\d+) port_end=(\d+) l4proto_type=(\d+) ip_version=(\d+) dscp=(\d+) not=(\d+) type=(\d+) outbound=(\d+) must=(\d+) mark=(\d+) pname=(\w+)", c["c"][0])
+    if not m:
+        return None, [(5, "C side cannot read the Go match_set image: " + c["c"][0])]
+    idx, ps, pe, l4m, ipm, dscp, not_, typ, ob, must, mark = [int(x) for x in m.groups()[:11]]
+    pn = m.group(12)
+    img = bytes.fromhex(g[0]["hex"])
+    consts = {n: cv for n, cv, gv, jv in info["consts"]}
+    want_type = consts["MatchType_" + MS_TYPE[c["kind"]]]
+    if c["kind"] == "fallback":     # addFallback parses its own outbound expression: no mark, no must, no negation
+        c = dict(c, must=False, mark=0)
+        c["not"] = False
+    hdr_ok = (typ == want_type and ob == c["outbound"] and must == int(c["must"]) and mark == c["mark"] and not_ == int(c["not"]))
+    if not hdr_ok:
+        pre.append((6, "match_set header as read by C (type=%d outbound=%d must=%d mark=%d not=%d) differs from what Go was asked to write (type=%d outbound=%d must=%d mark=%d not=%d)"
+                    % (typ, ob, must, mark, not_, want_type, c["outbound"], int(c["must"]), c["mark"], int(c["not"]))))
+    voff = info["go_value_off"]
+    val = img[voff:voff + 16].hex()
+    kind = c["kind"]
+    if kind in ("port", "sport"):
+        v, r = "(MSPortRange %d %d)" % (c["a"], c["b"]), "(MSPortRange %d %d)" % (ps, pe)
+    elif kind == "l4proto":
+        v, r = "(MSMask %d)" % c["a"], "(MSMask %d)" % l4m
+    elif kind == "ipversion":
+        v, r = "(MSMask %d)" % c["a"], "(MSMask %d)" % ipm
+    elif kind == "dscp":
+        v, r = "(MSDscp %d)" % c["a"], "(MSDscp %d)" % dscp
+    elif kind == "pname":
+        v, r = "(MSPname %s)" % hexbytes(c["pname"]), "(MSPname %s)" % hexbytes(pn)
+    elif kind in ("ip", "sip", "mac"):
+        v, r = "(MSIndex %d)" % c["a"], "(MSIndex %d)" % idx
+    else:
+        v, r = "(MSIndex 0)", "(MSIndex %d)" % idx
+    return "(KMs %s %s %s)" % (v, hexbytes(val), r), pre
+
+
+def evaluate(cases, tag, info):
+    pool = vlib.NumPool()
+    terms, idx, errors = [], [], {}
+    for i, c in enumerate(cases):
+        t, pre = case_to_coq(c, pool, info)
+        if pre:
+            errors[i] = list(pre)
+        if t is not None:
+            terms.append(t)
+            idx.append(i)
+    text = ("From Coq Require Import List NArith Bool String.\nFrom Dae Require Import C19_Spec C19_Lang C19_Model C19_Check.\n"
+            "Import ListNotations.\nOpen Scope N_scope.\n" + pool.header() +
+            "Definition cases : list kcase := [\n" + ";\n".join(terms) + "\n].\n"
+            "Definition R := Eval vm_compute in map check_case cases.\nPrint R.\n"
+            "Definition S := Eval vm_compute in map case_signature cases.\nPrint S.\n")
+    ok, out = vlib.coq_eval("C19_cases_%s" % tag, text)
+    if not ok:
+        return None, None, "coq evaluation failed: " + out[-2500:]
+    vals = coq_values(out, ["R", "S"])
+    if vals is None or len(vals["R"]) != len(idx):
+        return None, None, "cannot parse coq output: " + out[:600]
+    for i, codes in zip(idx, vals["R"]):
+        if codes:
+            errors.setdefault(i, [])
+            errors[i] += [(code, "") for code in codes]
+    return errors, [tuple(s) for s in vals["S"]], None
+
+
+# ----------------------------------------------------------------------------------------------------------------
+# layout stage: model vs compilers, compilers vs compilers
+# ----------------------------------------------------------------------------------------------------------------
+
+def parse_c_layout_output(text):
+    sizes, fields, consts, maps = {}, {}, {}, {}
+    for l in text.split("\n"):
+        if l.startswith("S "):
+            n, s, a = l[2:].split("|")
+            sizes[n] = (int(s), int(a))
+        elif l.startswith("F "):
+            n, p, o, s = l[2:].split("|")
+            fields.setdefault(n, []).append((p, int(o), int(s)))
+        elif l.startswith("C "):
+            _, n, v = l.split()
+            consts[n] = int(v)
+        elif l.startswith("M "):
+            _, n, ks, vs, mx = l.split()
+            maps[n] = (int(ks), int(vs), int(mx))
+    return sizes, fields, consts, maps
+
+
+def norm_path(p):
+    return ".".join(norm(x) for x in p.split("."))
+
+
+def go_norm_path(p):
+    return ".".join("_" if x == "_" else norm(x) for x in p.split("."))
+
+
+def layout_stage(sc, info, cbin, go_layouts):
+    """returns (tie_problems, violations, stats).  violations: list of (matcher, payload, description)"""
+    tie, viol = [], []
+    text = ("From Coq Require Import List NArith Bool String.\nFrom Dae Require Import C19_Spec C19_Lang C19_Model C19_Check.\n"
+            "From Dae.gen Require Import C19_Decls.\nImport ListNotations.\nOpen Scope N_scope.\n"
+            "Definition CS := Eval vm_compute in c_summary.\nPrint CS.\nDefinition CF := Eval vm_compute in c_first_summary.\nPrint CF.\n"
+            "Definition GS := Eval vm_compute in go_summary.\nPrint GS.\nDefinition PR := Eval vm_compute in pair_report.\nPrint PR.\n"
+            "Definition GP := Eval vm_compute in gopair_report.\nPrint GP.\nDefinition CR := Eval vm_compute in const_report.\nPrint CR.\n"
+            "Definition OK := Eval vm_compute in (forallb (fun d => ty_ok (snd d) && lang_ok LC (snd d)) c_decls, forallb (fun d => ty_ok (snd d) && lang_ok LGo (snd d)) go_decls).\nPrint OK.\n")
+    ok, out = vlib.coq_eval("C19_layouts", text)
+    vals = coq_values(out, ["CS", "CF", "GS", "PR", "GP", "CR", "OK"]) if ok else None
+    if vals is None:
+        return ["layout evaluation in Coq failed: " + out[-1500:]], [], {}
+    if vals["OK"] != (True, True):
+        tie.append("a declaration is outside the shape covered by C19_layout_functions_sound (ty_ok/lang_ok): %s" % (vals["OK"],))
+    # --- clang
+    rc, so, se, dt = vlib.run([cbin], cwd=os.path.dirname(cbin), input="L\n", timeout=60)
+    if rc != 0:
+        return ["C driver failed on L: " + se[-800:]], [], {}
+    csz, cfl, cconst, cmaps = parse_c_layout_output(so)
+    n_cmp = 0
+    cl_leaf = {}   # decl -> {normpath: (off, size)}
+    for (name, size, align, leaves) in vals["CS"]:
+        if name not in csz:
+            tie.append("clang did not report " + name)
+            continue
+        if csz[name] != (size, align):
+            tie.append("c_layout(%s) size/align %s <> clang %s" % (name, (size, align), csz[name]))
+        cf = cfl.get(name, [])
+        if len(cf) != len(leaves):
+            tie.append("c_layout(%s): %d leaves, clang table %d" % (name, len(leaves), len(cf)))
+            continue
+        cl_leaf[name] = {}
+        for (ln, off, w, n, pad), (p, co, cs) in zip(leaves, cf):
+            n_cmp += 1
+            cl_leaf[name][norm_path(p)] = (co, cs)
+            if norm_path(p) != ln or off != co or w * n != cs:
+                tie.append("c_layout(%s).%s = (off %d, %d x %d) <> clang %s (off %d, size %d)" % (name, ln, off, w, n, p, co, cs))
+    if cconst.get("IPPROTO_TCP") != 6 or cconst.get("IPPROTO_UDP") != 17:
+        tie.append("IPPROTO_* of the C headers: %s" % cconst)
+    # --- go/types (amd64, arm64) for every Go declaration, reflect for stub types
+    gt = {}
+    for key, s in info["go_decl_list"]:
+        gt[key] = s["sizes"]
+    refl = {"stub:" + l["name"]: l for l in go_layouts}
+    go_leaf = {}
+    for (name, size, align, leaves) in vals["GS"]:
+        sources = [("go/types " + arch, gt[name][arch]) for arch in ("amd64", "arm64")]
+        if name in refl:
+            sources.append(("compiled (reflect)", refl[name]))
+        elif name.startswith("stub:"):
+            tie.append("Go harness does not report the compiled layout of %s (new type: add it to harness/control/c19_test.go)" % name)
+        for what, lay in sources:
+            if (lay["size"], lay["align"]) != (size, align):
+                tie.append("go_layout(%s) size/align %s <> %s %s" % (name, (size, align), what, (lay["size"], lay["align"])))
+            ll = lay["leaves"]
+            if len(ll) != len(leaves):
+                tie.append("go_layout(%s): %d leaves, %s %d" % (name, len(leaves), what, len(ll)))
+                continue
+            for (ln, off, w, n, pad), l in zip(leaves, ll):
+                n_cmp += 1
+                if go_norm_path(l["path"]) != ln or l["off"] != off or l["size"] != w or l["n"] != n:
+                    tie.append("go_layout(%s).%s = (off %d, %d x %d) <> %s %s" % (name, ln, off, w, n, what, l))
+        src = refl.get(name) or gt[name]["amd64"]
+        go_leaf[name] = (src["size"], [(go_norm_path(l["path"]), l["off"], l["size"], l["n"]) for l in src["leaves"]])
+    # --- compilers vs compilers: the property itself on the compilers' numbers (first union member, padding dropped)
+    cfirst = {name: (size, leaves) for (name, size, align, leaves) in vals["CF"]}
+    gsum = {name: (size, leaves) for (name, size, align, leaves) in vals["GS"]}
+    for (cn, gn, agree) in vals["PR"]:
+        cname = "struct " + cn
+        problems = []
+        if cname in cl_leaf and gn in go_leaf:
+            c_data = [(ln, cl_leaf[cname][ln][0], w, n) for (ln, off, w, n, pad) in cfirst[cname][1] if not pad and ln in cl_leaf[cname]]
+            g_data = [(ln, off, w, n) for (ln, off, w, n), (_, _, _, _, pad) in zip(go_leaf[gn][1], gsum[gn][1]) if not pad]
+            if csz[cname][0] != go_leaf[gn][0]:
+                problems.append("sizeof %d (clang) <> %d (Go)" % (csz[cname][0], go_leaf[gn][0]))
+            for i in range(max(len(c_data), len(g_data))):
+                a = c_data[i] if i < len(c_data) else None
+                b = g_data[i] if i < len(g_data) else None
+                if a != b:
+                    problems.append("field #%d: C %s <> Go %s  (name, offset, width, count)" % (i, a, b))
+                    break
+        if problems or not agree:
+            m_agree = "model: pair_agree = %s" % agree
+            viol.append(("layout:%s:%s" % (cn, gn), {"c_decl": cname, "go_decl": gn, "compilers": problems, "model": m_agree,
+                                                     "c_layout": cfirst.get(cname), "go_layout": gsum.get(gn)},
+                         "C %s and Go %s do not have the same layout: %s" % (cname, gn, "; ".join(problems) or m_agree)))
+            if bool(problems) == bool(agree):
+                tie.append("pair %s/%s: compilers say %s, model says agree=%s" % (cn, gn, problems, agree))
+    for (n, agree) in vals["GP"]:
+        if not agree:
+            viol.append(("realstub:%s" % n, {"go_type": n, "real": gsum.get("real:" + n), "stub": gsum.get("stub:" + n)},
+                         "real-build and stub-build declarations of Go type %s differ" % n))
+    for (n, agree), (n2, cv, gv, jv) in zip(vals["CR"], info["consts"]):
+        if not agree:
+            viol.append(("const:%s" % n, {"constant": n, "c_value": cv, "go_value": gv, "json_spec_value": jv},
+                         "shared constant %s: C %s, Go %s, JSON spec %s" % (n, cv, gv, jv)))
+    for u in info["unpaired"]:
+        viol.append(("unpaired:%s" % u, {"go_type": u}, "Go mirror type %s has no C declaration of the corresponding name" % u))
+    # --- map key/value sizes (C side) against the mirrors used for them
+    stats = {"layout_numbers_compared": n_cmp, "c_maps": cmaps}
+    return tie, viol, stats
+
+
+def bpf_target_check(sc, d, info, csz, cfl):
+    """second opinion: the same numbers hold for -target bpf (compile-time _Static_assert)"""
+    L = ['#include "tproxy.c"']
+    for name, (s, a) in csz.items():
+        L.append('_Static_assert(sizeof(%s) == %d, "sizeof %s");' % (name, s, name))
+        L.append('_Static_assert(_Alignof(%s) == %d, "alignof %s");' % (name, a, name))
+        for (p, o, fs) in cfl.get(name, []):
+            L.append('_Static_assert(offsetof(%s, %s) == %d, "offsetof %s.%s");' % (name, p, o, name, p))
+    open(os.path.join(d, "c19_bpf_sa.c"), "w").write("\n".join(L) + "\n")
+    inc = "/usr/include/x86_64-linux-gnu"
+    rc, so, se, dt = vlib.run(["clang", "-target", "bpf", "-D__x86_64__", "-O2", "-Wno-everything", "-fsyntax-only", "-I", d, "-I", inc, "c19_bpf_sa.c"],
+                              cwd=d, timeout=120)
+    if rc == 0:
+        return "agrees", None
+    if "static_assert" in se or "static assertion" in se:
+        return "differs", se[-1200:]
+    return "unavailable", se[-400:]
+
+
+# ----------------------------------------------------------------------------------------------------------------
+# shrinking: simplify the fields of a failing entity while it keeps failing with the same code
+# ----------------------------------------------------------------------------------------------------------------
+
+def simpler_values(v, width):
+    c = [0, 1, v & 0xff, v >> (width - 8) << (width - 8) if width >= 8 else 0, v & ~(v - 1) if v else 0]
+    return [x for x in dict.fromkeys(c) if x != v and x < v]
+
+
+def shrink(sc, gobin, cbin, case, want, info):
+    def fails(c):
+        c = json.loads(json.dumps(c))
+        for k in ("go", "c"):
+            c.pop(k, None)
+        fix_lists(c)
+        if run_impl(sc, gobin, cbin, [c], "shrink"):
+            return False
+        errs, _, e = evaluate([c], "shrink", info)
+        return e is None and any(code == want for code, _ in errs.get(0, []))
+    cur = json.loads(json.dumps(case))
+    for k in ("go", "c"):
+        cur.pop(k, None)
+    fix_lists(cur)
+    steps = 0
+    changed = True
+    while changed and steps < 10:
+        changed = False
+        cands = []
+        f = cur.get("flow")
+        if f:
+            for fld in ("sport", "dport"):
+                cands += [("flow", fld, x) for x in simpler_values(f[fld], 16)[:2]]
+            for fld in ("src", "dst"):
+                w = 32 if f[fld][0] == "4" else 128
+                cands += [("flow", fld, (f[fld][0], x)) for x in simpler_values(f[fld][1], w)[:2]]
+            if f["proto"] not in (6, 17):
+                cands.append(("flow", "proto", 6))
+        for fld, w in (("outbound", 8), ("a", 32), ("b", 32), ("mark", 32), ("pbits", 8)):
+            if fld in cur and isinstance(cur[fld], int):
+                cands += [(None, fld, x) for x in simpler_values(cur[fld], w)[:2]]
+        for fld in ("not", "must"):
+            if cur.get(fld):
+                cands.append((None, fld, False))
+        for where, fld, val in cands:
+            steps += 1
+            if steps > 10:
+                break
+            t = json.loads(json.dumps(cur))
+            fix_lists(t)
+            if where:
+                t[where][fld] = val
+            else:
+                t[fld] = val
+            if t.get("k") == "ms" and t.get("kind") in ("port", "sport") and t["a"] > t["b"]:
+                continue
+            if fails(t):
+                cur = t
+                changed = True
+                break
+    return cur
+
+
+def fix_lists(c):
+    """json round trip turns tuples into lists"""
+    for key in ("paddr",):
+        if key in c:
+            c[key] = tuple(c[key])
+    if "flow" in c:
+        for key in ("src", "dst"):
+            c["flow"][key] = tuple(c["flow"][key])
+
+
+def matcher_of(case, code):
+    k = case["k"]
+    if k == "ms":
+        return "key:ms:%s:code%d" % (case["kind"], code)
+    if k == "conn":
+        return "key:conn:dom%d:code%d" % (case["dom"], code)
+    if k == "lpm":
+        return "key:lpm:%s:%s:code%d" % (case["paddr"][0], case["grep"], code)
+    f = case["flow"]
+    return "key:%s:%s%s:code%d" % (k, f["src"][0], f["dst"][0], code)
+
+
+DESCR = {4: "the bytes the Go constructor produces differ from the key of the entity", 5: "the bytes the kernel code computes differ from the key of the entity",
+         6: "control plane and kernel compute different keys / values for the same entity"}
+
+
+def strip_obs(c):
+    return {k: v for k, v in c.items() if k not in ()}
+
+
+def main(argv):
+    args = vlib.main_args(argv)
+    out = vlib.Outcome(PID, args.tier, args.seed)
+    rng = vlib.rng_for(args.seed, PID)
+    n_cases = 700 if args.tier == "quick" else 20000
+    cov = {"obligations": 0, "discharged": 0,
+           "checker_cmd": "cd /verif/coq && coq_makefile -f _CoqProject -o Makefile && make -j16 " + " ".join(TARGETS) + " && coqc -Q . Dae C19_Props.v (Print Assumptions captured)",
+           "trusted_base": vlib.TRUSTED_BASE_COMMON + [
+               "tools/c19.py C declaration parser and harness/c19tool/c19_extract.go (go/parser + go/types): cross-checked on every run against clang's sizeof/offsetof/_Alignof of every parsed member (host and -target bpf) and against go/types.Sizes (amd64, arm64) and the compiled stub types (reflect)",
+               "name normalisation pairing C and Go declarations and fields (lower-case, underscores removed, bpf prefix removed); fields named pad*/_ are padding",
+               "harness/c shim headers and maprt.h (host stand-in for the BPF map runtime; LPM trie lookup used for the end-to-end hit test)",
+               "bpf2go's real output (bpf_bpfel.go) is not available in this sandbox: the stub-build types stand for it",
+               "little-endian hosts (amd64/arm64); the match_set value theorem is explicitly refuted for big-endian hosts"],
+           "evaluations": 0, "distinct_nontrivial": 0, "traces_validated_against_impl": 0, "samples": []}
+    out.coverage = cov
+    out.assumptions = ["dae targets little-endian 64-bit hosts (amd64, arm64) and the bpfel target",
+                       "kernel LPM trie semantics: longest entry whose first prefixlen bits equal the key's, prefixlen host-order u32, data compared from byte 0, MSB first",
+                       "a map key is the in-memory image of the Go value passed to cilium/ebpf (binary.Write-free fast path for fixed-size host-layout structs)"]
+
     with vlib.Scratch() as sc:
-        info, txt = translate(sc)
-        sys.stdout.write(txt)
-        print(json.dumps(info["c_skipped"], indent=1))
-        print(info["pairs"], info["unpaired"])
-    sys.exit(0)
+        # ---- 1. translate
+        try:
+            info, txt = translate(sc)
+        except Anchor as e:
+            out.violation("translate", {"broken": "translator", "why": str(e)}, "C19 translator cannot read the anchored declarations: %s" % e, no_failing_input=True)
+            return out.finish()
+        vlib.write_if_changed(os.path.join(vlib.COQ, "gen", "C19_Decls.v"), txt)
+        cov["declarations"] = {"c_translated": [d["kind"] + " " + d["name"] for d in info["c_decls"]], "c_kernel_only_skipped": info["c_skipped"],
+                               "go": [k for k, _ in info["go_decl_list"]], "pairs": info["pairs"], "real_vs_stub": info["gopairs"],
+                               "go_only": GO_ONLY, "shared_constants": len(info["consts"])}
+
+        # ---- 2. proofs
+        proof_ok, pinfo = vlib.proof_stage(out, PROPS, TARGETS)
+        cov.update(obligations=pinfo["obligations"], discharged=pinfo["discharged"], theorems=pinfo.get("theorems", []),
+                   print_assumptions=pinfo.get("assumptions", []))
+        if not proof_ok:
+            ok2, mlog = vlib.coq_make(["C19_Check.vo"])
+            if not ok2:
+                out.violation("tie", {"proof": pinfo["failed"], "check_build": mlog[-2000:]}, "C19 Coq development no longer builds", no_failing_input=True)
+                return out.finish()
+
+        # ---- 3. harnesses
+        tie = []
+        try:
+            lifted = sc.path("c19_lifted_test.go")
+            open(lifted, "w").write(gen_lifted_go())
+            d = cbuild.prepare(sc)
+            tproxy_src = read("control/kern/tproxy.c")
+            hdr, macinfo = gen_c_header(info, tproxy_src)
+            open(os.path.join(d, "c19_layout_gen.h"), "w").write(hdr)
+        except (Anchor, cbuild.CBuildError) as e:
+            out.violation("translate", {"broken": "lifting", "why": str(e)}, "C19 cannot lift the real-build functions / prepare the C build: %s" % e, no_failing_input=True)
+            return out.finish()
+        if not macinfo["mac_sites_identical"]:
+            tie.append("the mac_be expressions of lan ingress and wan egress are no longer textually identical; only the lan-ingress one is run")
+        cbin, clog = cbuild.compile(d, os.path.join(vlib.VERIF, "harness", "c", "c19_layout.c"), "c19drv")
+        gobin, glog = vlib.build_go_test_binary(sc, "control", HARNESS,
+                                                extra_overlay={os.path.join(vlib.REPO, "control", "zz_verif_c19_lifted_test.go"): lifted})
+        if cbin is None or gobin is None:
+            out.violation("build", {"broken": "harness build against the tree failed", "c_log": clog[-2500:] if cbin is None else "", "go_log": glog[-2500:] if gobin is None else ""},
+                          "correspondence harness no longer builds against /repo", no_failing_input=True)
+            return out.finish()
+
+        # ---- 3a. layouts
+        lcase = {"k": "layout"}
+        inp, outp = sc.path("lay.in"), sc.path("lay.out")
+        open(inp, "w").write(json.dumps({"op": "layout"}) + "\n")
+        rc, so, se, dt = vlib.run_go_harness(gobin, "TestVerifC19", inp, outp)
+        if rc != 0:
+            out.violation("build", {"broken": "Go harness layout op", "log": (so + se)[-2000:]}, "Go harness failed", no_failing_input=True)
+            return out.finish()
+        gl = json.loads(open(outp).readline())
+        for l in gl["layouts"]:
+            if l["name"] == "bpfMatchSet":
+                info["go_value_off"] = [x["off"] for x in l["leaves"] if x["path"] == "Value"][0]
+        # compiled constants vs go/types evaluation
+        for k, v in gl.get("consts", {}).items():
+            if str(v) != str(info["go"]["consts"].get(k)):
+                tie.append("Go constant %s: compiled %s, go/types %s" % (k, v, info["go"]["consts"].get(k)))
+        ltie, lviol, lstats = layout_stage(sc, info, cbin, gl["layouts"])
+        tie += ltie
+        rc, so, se, dt = vlib.run([cbin], cwd=d, input="L\n", timeout=60)
+        csz, cfl, _, cmaps = parse_c_layout_output(so)
+        bpf_status, bpf_log = bpf_target_check(sc, d, info, csz, cfl)
+        if bpf_status == "differs":
+            tie.append("clang -target bpf lays a declaration out differently from the host build: " + bpf_log)
+        cov["layout_cross_checks"] = {"numbers_compared_model_vs_compilers": lstats.get("layout_numbers_compared", 0), "clang_target_bpf": bpf_status,
+                                      "go_sizes": ["go/types gc/amd64", "go/types gc/arm64", "compiled stub types (reflect)"],
+                                      "mac_expr_sites": macinfo}
+        # map key/value sizes declared in C vs the Go mirrors used with those maps
+        MAP_TYPES = {"conn_state_map": ("stub:bpfTuplesKey", "stub:bpfConnState"), "routing_handoff_map": ("stub:bpfTuplesKey", "stub:bpfRoutingHandoffEntry"),
+                     "redirect_track": ("stub:bpfRedirectTuple", "stub:bpfRedirectEntry"), "routing_map": (4, "stub:bpfMatchSet"),
+                     "domain_routing_map": (16, "stub:bpfDomainRouting"), "cookie_pid_map": (8, "stub:bpfPidPname"),
+                     "outbound_connectivity_map": (4, 4), "routing_meta_map": (4, 4), "bpf_stats_map": (4, 8), "fast_sock": ("stub:bpfTuplesKey", 8)}
+        gsz = {k: s["sizes"]["amd64"]["size"] for k, s in info["go_decl_list"]}
+        for mname, (kt, vt) in MAP_TYPES.items():
+            if mname not in cmaps:
+                tie.append("map %s no longer declared in tproxy.c" % mname)
+                continue
+            ks = kt if isinstance(kt, int) else gsz.get(kt)
+            vs = vt if isinstance(vt, int) else gsz.get(vt)
+            if (cmaps[mname][0], cmaps[mname][1]) != (ks, vs):
+                lviol.append(("mapsize:%s" % mname, {"map": mname, "c_key_value_size": cmaps[mname][:2], "go_key_value_size": (ks, vs), "go_types": (kt, vt)},
+                              "map %s: kernel key/value size %s, control plane uses %s" % (mname, cmaps[mname][:2], (ks, vs))))
+        n_layout_items = len(info["pairs"]) + len(info["gopairs"]) + len(info["consts"]) + len(MAP_TYPES)
+
+        # ---- 3b. key cases
+        corpus = []
+        cdir = os.path.join(vlib.VERIF, "corpus", PID)
+        if os.path.isdir(cdir):
+            for n in sorted(os.listdir(cdir)):
+                c = json.load(open(os.path.join(cdir, n)))
+                fix_lists(c)
+                corpus.append(c)
+        if args.replay:
+            rp = json.load(open(args.replay))
+            c = rp.get("replay", {}).get("case")
+            if c:
+                fix_lists(c)
+                corpus, n_cases = [c], 0
+        cases = corpus + [gen_case(rng) for _ in range(n_cases)]
+        if args.tier == "thorough" and not args.replay:
+            # exhaustive connectivity slots
+            for ob in range(256):
+                for dom in (0, 1, 2):
+                    for v6 in (False, True):
+                        nt = {"udp": dom != 0, "dom": {0: 0, 1: 1, 2: 2}[dom], "isdns": dom == 1}
+                        cases.append({"k": "conn", "outbound": ob, "dom": dom, "v6": v6, "nt": nt, "l4proto": 6 if dom == 0 else 17, "dport": 53 if dom == 1 else 443})
+        all_err, sigs = {}, []
+        tie_broken = None
+        shard = 3000
+        for s in range(0, len(cases), shard):
+            chunk = cases[s:s + shard]
+            e = run_impl(sc, gobin, cbin, chunk, "b%d" % s)
+            if e:
+                tie_broken = e
+                break
+            errs, sg, e = evaluate(chunk, "b%d" % s, info)
+            if e:
+                tie_broken = e
+                break
+            for i, v in errs.items():
+                if v:
+                    all_err[s + i] = v
+            sigs += sg
+        n_eval = len(cases)
+        spec_codes = (4, 5, 6)
+        has_spec_fail = any(any(code in spec_codes for code, _ in e) for e in all_err.values()) or bool(lviol)
+        widened = False
+        if (tie or not proof_ok or any(all(code not in spec_codes for code, _ in e) for e in all_err.values())) and not has_spec_fail and not tie_broken and not args.replay:
+            widened = True
+            extra = [gen_case(rng) for _ in range(10 * max(n_cases, 1500))]
+            for s in range(0, len(extra), shard):
+                chunk = extra[s:s + shard]
+                if run_impl(sc, gobin, cbin, chunk, "w%d" % s):
+                    break
+                errs, sg, e = evaluate(chunk, "w%d" % s, info)
+                if e:
+                    break
+                for i, v in errs.items():
+                    if v:
+                        all_err[len(cases) + s + i] = v
+                sigs += sg
+            cases += extra
+            n_eval = len(cases)
+
+        # ---- 4. classify
+        for matcher, payload, descr in lviol:
+            out.violation("layout_" + re.sub(r"\W+", "_", matcher), dict(payload, how="declaration-level: compare the two declarations named here (./check C19 re-extracts them)"),
+                          descr, matchers=[matcher])
+        spec_fail = sorted(i for i, e in all_err.items() if any(code in spec_codes for code, _ in e))
+        model_fail = sorted(i for i, e in all_err.items() if any(code in (1, 2) for code, _ in e))
+        thm_fail = sorted(i for i, e in all_err.items() if any(code == 3 for code, _ in e))
+        reported = set()
+        for i in spec_fail:
+            code = [c for c, _ in all_err[i] if c in spec_codes]
+            code = 6 if 6 in code else code[0]
+            m = matcher_of(cases[i], code)
+            if m in reported:
+                continue
+            reported.add(m)
+            small = cases[i]
+            if not any(t for c, t in all_err[i] if c == code and t):
+                small = shrink(sc, gobin, cbin, cases[i], code, info)
+                run_impl(sc, gobin, cbin, [small], "final")
+            texts = [t for c, t in all_err[i] if t]
+            out.violation("impl_vs_spec_" + re.sub(r"\W+", "_", m), {"case": small, "codes": sorted(set(c for c, _ in all_err[i])), "notes": texts,
+                                                                     "how": "./check C19 --replay <this file>: feeds the entity to TestVerifC19 and to harness/c/c19_layout.c and compares the raw bytes"},
+                          "%s (%s; %d failing entities of this class)" % (DESCR[code], m, sum(1 for j in spec_fail if matcher_of(cases[j], code) == m)), matchers=[m])
+            if len(reported) >= 6:
+                break
+        if not spec_fail and not lviol and (model_fail or thm_fail or tie_broken or tie or not proof_ok):
+            what = {}
+            if not proof_ok:
+                what["proof"] = pinfo["failed"]
+            if tie_broken:
+                what["correspondence"] = tie_broken
+            if tie:
+                what["layout_function_vs_compiler"] = tie[:12]
+            if model_fail:
+                c0 = cases[model_fail[0]]
+                what["correspondence_case"] = {"case": c0, "errors": all_err[model_fail[0]]}
+            if thm_fail:
+                what["model_vs_spec_case"] = {"case": cases[thm_fail[0]], "errors": all_err[thm_fail[0]]}
+            what["searched"] = "%d entities (widened=%s) with no impl<>spec disagreement" % (n_eval, widened)
+            out.violation("tie", what, "proof obligation or model correspondence no longer checks; no failing input found", no_failing_input=True)
+        elif tie and (spec_fail or lviol):
+            out.notes.append({"tie_problems": tie[:12]})
+
+        by_kind = {}
+        for s in sigs:
+            by_kind[s[0]] = by_kind.get(s[0], 0) + 1
+        distinct = len(set(sigs))
+        sample = next((c for c in cases[len(corpus):] if c["k"] == "tuple"), cases[0] if cases else lcase)
+        cov.update(evaluations=n_eval + n_layout_items, distinct_nontrivial=distinct,
+                   rule="entities from one seeded PRNG, boundary-biased (addresses 0/all-ones/mapped/NAT64/multicast, ports 0/53/65535/byte-swapped 53, prefix lengths 0/1/7/8/9/width-1/width with "
+                        "destinations just inside / one bit outside, outbound ids 0/1/251..255, all match_set kinds); signature = (case kind, address or value class, Go representation / prefix class, "
+                        "port or hit class); every distinct signature counted (all are non-trivial: each runs both real constructors); plus the exhaustive declaration/constant/map-size items",
+                   cases_by_kind={{1: "tuple", 2: "connectivity", 3: "lpm", 4: "domain", 5: "match_set", 6: "mac"}.get(k, str(k)): v for k, v in sorted(by_kind.items())},
+                   traces_validated_against_impl=n_eval - len(model_fail),
+                   comparisons="per entity: Go bytes = Go model, C bytes = C model, models = spec, Go bytes = spec, C bytes = spec, Go bytes = C bytes; "
+                               "LPM: C trie holding the Go key hits for the packet iff the prefix contains the address; declarations: model layouts = clang = go/types = compiled",
+                   samples=[{k: v for k, v in sample.items()}], widened_search=widened, layout_items=n_layout_items)
+    return out.finish()
+
+
+if __name__ == "__main__":
+    sys.exit(main(sys.argv[1:]))
